@@ -99,36 +99,108 @@ def early_returns(ctx, rule):
         return
     sy = ctx.sym(b)
     def walk_to_const(l0_zero, l1_zero):
+        """follow the entry of the function for the abstract lengths (0 or >0) of the two argument slices, evaluating
+        length / emptiness tests, until the return value is assigned a constant or something else is computed"""
+        POS = "pos"
+        env = {}
+
+        def length_of(arg_expr):
+            a = S.strip_refs(arg_expr)
+            if a == ("arg", 2):
+                return 0 if l0_zero else POS
+            if a == ("arg", 3):
+                return 0 if l1_zero else POS
+            return None
+
+        def val(op):
+            if "const" in op:
+                c = op["const"]
+                e = sy.operand(op)
+                return S.const_value(e) if U.is_const(e) else None
+            pl = op.get("copy") or op.get("move")
+            if pl is None or pl["p"]:
+                return None
+            return env.get(pl["l"])
+
+        def cmp_(op, a, b_):
+            if a is None or b_ is None:
+                return None
+            outs = set()
+            for x in ([1, 5] if a == POS else [a]):
+                for y in ([1, 5] if b_ == POS else [b_]):
+                    try:
+                        outs.add(bool(U.cmp_eval(op, x, y)))
+                    except Exception:
+                        return None
+            return outs.pop() if len(outs) == 1 else None
         blk = 0
-        for _ in range(40):
+        for _ in range(80):
             bl = b.blocks[blk]
             for st in bl["stmts"]:
-                if st["k"] == "assign" and st["place"]["l"] == 0 and not st["place"]["p"]:
-                    e = sy.rvalue(st["rv"])
-                    return S.const_value(e) if U.is_const(e) else "non-const"
+                if st["k"] != "assign" or st["place"]["p"]:
+                    continue
+                l = st["place"]["l"]
+                rv = st["rv"]
+                v = None
+                if rv["k"] == "use":
+                    v = val(rv["op"])
+                elif rv["k"] == "binop" and rv["op"] in U.CMP_OPS:
+                    v = cmp_(rv["op"], val(rv["a"]), val(rv["b"]))
+                elif rv["k"] == "unop" and str(rv["op"]).lower() == "not":
+                    x = val(rv["a"])
+                    v = (not x) if isinstance(x, bool) else None
+                elif rv["k"] == "agg" and rv.get("akind") == "tuple":
+                    v = ("tuple", tuple(val(o) for o in rv["ops"]))
+                if l == 0:
+                    if rv["k"] == "use" and isinstance(v, (int, float)) and not isinstance(v, bool):
+                        return v
+                    return "non-const"
+                env[l] = v
             t = bl["term"]
             if t["k"] == "switch":
-                e = S.strip_refs(sy.operand(t["discr"]))
-                which = None
-                if e[0] == "call" and e[1].endswith("::len"):
-                    a = S.strip_refs(e[2][0])
-                    if a == ("arg", 2):
-                        which = l0_zero
-                    elif a == ("arg", 3):
-                        which = l1_zero
-                if which is None:
+                d = t["discr"]
+                pl = d.get("copy") or d.get("move")
+                x = None
+                if pl is not None:
+                    x = env.get(pl["l"])
+                    for pr in pl["p"]:
+                        if isinstance(pr, dict) and "f" in pr and isinstance(x, tuple) and x and x[0] == "tuple":
+                            x = x[1][pr["f"]] if pr["f"] < len(x[1]) else None
+                        else:
+                            x = None
+                if x is None:
                     return "computed"
-                tg = dict((v, x) for v, x in t["targets"])
-                blk = tg.get(0, t["otherwise"]) if which else (t["otherwise"] if 0 in tg else None)
+                tg = dict((v_, y) for v_, y in t["targets"])
+                if isinstance(x, bool):
+                    blk = tg.get(1 if x else 0, t["otherwise"])
+                elif x == POS:
+                    if set(tg) <= {0}:
+                        blk = t["otherwise"]
+                    else:
+                        return "computed"
+                elif isinstance(x, int):
+                    blk = tg.get(x, t["otherwise"])
+                else:
+                    return "computed"
                 if blk is None:
                     return "computed"
             elif t["k"] == "goto":
                 blk = t["target"]
             elif t["k"] == "call":
-                if U.callee_is(t, "<impl [T]>::len", "Vec::len", "is_empty"):
-                    blk = t["target"]
+                v = None
+                if U.callee_is(t, "<impl [T]>::len", "Vec::len") and t["args"]:
+                    v = length_of(sy.operand(t["args"][0]))
+                elif U.callee_is(t, "<impl [T]>::is_empty", "Vec::is_empty") and t["args"]:
+                    n_ = length_of(sy.operand(t["args"][0]))
+                    v = None if n_ is None else (n_ == 0)
                 else:
                     return "computed"
+                if v is None or t["dest"]["p"] or t.get("target") is None:
+                    return "computed"
+                env[t["dest"]["l"]] = v
+                blk = t["target"]
+            elif t["k"] == "return":
+                return "non-const"
             else:
                 return "computed"
         return "computed"
